@@ -283,6 +283,19 @@ def special_valid():
         ("big-integers/file-size", "2.1", "observables:file", dict(g21.minimal("observables:file"), size=2 ** 53 + 1)),
         ("big-integers/sighting-count-is-bounded-but-exact", "2.1", "objects:sighting", dict(g21.minimal("objects:sighting"), count=999999999)),
     ]
+    # "at least one of ..." groups whose ONLY populated member is a zero / false (present is present)
+    for ver in ("2.1",):
+        g = gen.Gen(ver)
+        proc = {k: v for k, v in g.minimal("observables:process").items() if k in ("type", "id", "spec_version")}
+        fil = g.minimal("observables:file")
+        out += [("at-least-one/process-pid-zero", ver, "observables:process", dict(proc, pid=0)),
+                ("at-least-one/process-is_hidden-false", ver, "observables:process", dict(proc, is_hidden=False)),
+                ("at-least-one/pdf-ext-is_optimized-false", ver, "observables:file", dict(fil, extensions={"pdf-ext": {"is_optimized": False}})),
+                ("at-least-one/windows-process-ext-aslr-false", ver, "observables:process", dict(proc, pid=1, extensions={"windows-process-ext": {"aslr_enabled": False}})),
+                ("at-least-one/pe-optional-header-entry-point-zero", ver, "observables:file", dict(fil, extensions={"windows-pebinary-ext": {"pe_type": "exe", "optional_header": {"address_of_entry_point": 0}}})),
+                ("at-least-one/raster-image-height-zero", ver, "observables:file", dict(fil, extensions={"raster-image-ext": {"image_height": 0}})),
+                ("at-least-one/socket-ext-flags-false", ver, "observables:network-traffic", dict(g.minimal("observables:network-traffic"), extensions={"socket-ext": {"address_family": "AF_INET", "is_blocking": False}})),
+                ("at-least-one/x509-extensions-empty-string-is-content", ver, "observables:x509-certificate", dict({k: v for k, v in g.minimal("observables:x509-certificate").items() if k in ("type", "id", "spec_version")}, is_self_signed=False))]
     return out
 
 
